@@ -7,6 +7,7 @@
 #![allow(dead_code, unused_parens)]
 mod heapwatch;
 mod lang;
+mod mockkem;
 mod ops;
 mod probe;
 mod residue;
